@@ -50,6 +50,32 @@ MD4Finalize(h, tail, n) == MD4Digest(MD4Absorb(h, tail \o MD4PadFor(n)))
 
 MD4Sum(m) == MD4Finalize(MD4Absorb(MD4Init, m), SubSeq(m, Len(m) - (Len(m) % 64) + 1, Len(m)), Len(m))
 
+(* ---- long messages ----
+   TLC integers are 32 bits wide, so a length of 2^28 bytes or more is carried as the pair (q, r) = (n \div 2^20, n % 2^20);
+   its 64-bit bit count 8n = q * 2^23 + 8r is written digit by digit. *)
+MD4PadForBig(q, r) ==
+    LET low == r * 8                                   \* < 2^23
+        up == q \div 2                                 \* bits 24.. of the count
+        z == IF r % 64 < 56 THEN 55 - (r % 64) ELSE 119 - (r % 64)
+    IN <<128>> \o Zeros(z)
+       \o << low % 256, (low \div 256) % 256, ((low \div 65536) % 128) + 128 * (q % 2),
+             up % 256, (up \div 256) % 256, (up \div 65536) % 256, 0, 0 >>
+(* Merkle-Damgard: the digest of P is the chaining value after the blocks of P \o pad(P).  So for a message that STARTS with
+   P \o pad(P) -- of length (q, r), a multiple of 64 -- and continues with x, the digest follows from the digest d of P alone:
+   absorb x and the padding for the total length from the chaining value d.  This is how a digest of a message far too long
+   for TLC to read is still decided here: the code reports d for the long P, and its digest of the extended message must be
+   the one computed from d (a wrong length trailer at large counts makes d wrong and the two disagree). *)
+MD4FromDigest(d) == <<WFromLE(SubSeq(d, 1, 4)), WFromLE(SubSeq(d, 5, 8)), WFromLE(SubSeq(d, 9, 12)), WFromLE(SubSeq(d, 13, 16))>>
+MD4Extend(d, q, r, x) ==
+    LET t == r + Len(x)                                \* r < 2^20 and x short: no overflow
+    IN MD4Digest(MD4Absorb(MD4FromDigest(d), x \o MD4PadForBig(q + (t \div 1048576), t % 1048576)))
+ASSUME \A n \in {0, 1, 55, 56, 63, 64, 119, 120, 1000} : MD4PadForBig(0, n) = MD4PadFor(n)
+ASSUME MD4PadForBig(64, 0) = <<128>> \o Zeros(55) \o <<0, 0, 0, 32, 0, 0, 0, 0>>          \* 64 MiB = 2^29 bits
+ASSUME MD4PadForBig(4096, 1) = <<128>> \o Zeros(54) \o <<8, 0, 0, 0, 8, 0, 0, 0>>         \* 4 GiB + 1 byte = 2^35 + 8 bits
+ASSUME LET P == [i \in 1..70 |-> (i * 7) % 256]  x == <<1, 2, 3>>
+           PP == P \o MD4PadFor(70)
+       IN Len(PP) = 128 /\ MD4Sum(PP \o x) = MD4Extend(MD4Sum(P), 0, 128, x) /\ MD4Sum(PP) = MD4Extend(MD4Sum(P), 0, 128, <<>>)
+
 (* RFC 1320 A.5 test suite -- a broken oracle must fail loudly *)
 ASSUME HexLower(MD4Sum(<<>>)) = "31d6cfe0d16ae931b73c59d7e0c089c0"
 ASSUME HexLower(MD4Sum(<<97>>)) = "bde52cb31de33e46245e05fbdbd6fb24"
